@@ -378,6 +378,20 @@ def selftest():
             fails.append("corruption %s not rejected as expected: %s" % (name, rej[:1]))
         else:
             vlib.log("selftest: corruption", name, "rejected:", rej[0]["why"])
+    # the free-running summary record: accepted as recorded, rejected with one pair of distinct instances
+    tp2 = run_ptrace({"ms": 500}, "selftest_ptrace")
+    ok, rej, _ = validate_trace(D, "Trace_Linked", tp2, cfg="Trace_Linked.cfg")
+    if not ok:
+        fails.append("recorded ptrace run rejected: %s" % rej[:1])
+    rr = read_ndjson(tp2)
+    rr[1]["two_live"] = 1
+    p3 = os.path.join(workdir(PID), "selftest_ptrace_bad.ndjson")
+    write_ndjson(p3, rr)
+    ok, rej, _ = validate_trace(D, "Trace_Linked", p3, cfg="Trace_Linked.cfg")
+    if ok or not any("second live instance" in r.get("why", "") for r in rej):
+        fails.append("ptrace record with two live instances not rejected: %s" % rej[:1])
+    else:
+        vlib.log("selftest: corruption ptrace-two-live rejected:", rej[0]["why"])
     for f in fails:
         vlib.log("SELFTEST FAILURE:", f)
     print("selftest C12:", "FAILED" if fails else "ok")
